@@ -250,6 +250,16 @@ pub fn run(ctx: &mut Ctx) {
     if ctx.worker == 0 {
         ctx.st.exhaustive.push(json!({"name": "every Unicode scalar c in the combined names a{c}b, {c}b, a{c} x 7 types (split and inverse)", "size": 1_112_064u64 * 21, "completed": true}));
     }
+    // every dictionary token alone, after and before a plain word, and after a namespace
+    if ctx.worker == 0 {
+        for t in gen::DICTIONARY {
+            for form in [t.to_string(), format!("name{t}"), format!("{t}name"), format!("a/b/name{t}"), format!("g:a:name{t}"), format!("a/b/{t}"), format!("name{t}/x")] {
+                for ty in &types {
+                    split_case(ctx, ty, &form, "dictionary-tokens");
+                }
+            }
+        }
+    }
     // random hostile strings with separators at random and extreme positions
     let mut r = ctx.rng("c18.split");
     for _ in 0..ctx.share(600_000, 12_000_000) {
